@@ -59,6 +59,12 @@ CheckEvent(e, x) ==
                 /\ MemOf(lr) = MemOf(x.st.regs)
                 /\ \A i \in 1 .. Len(e.s.regs) : "fmem" \in DOMAIN e.s.regs[i] => e.s.regs[i].fmem = e.s.regs[i].mem,
              "data", [res |-> x.r, mem |-> MemOf(x.st.regs)])
+    /\ Judge(("stream" \in Check /\ e.op \in ScriptedOps) =>
+                /\ ResEq(e.r, x.r)
+                /\ SameShape(lr, x.st.regs)
+                /\ MemOf(lr) = MemOf(x.st.regs)
+                /\ ("io" \in DOMAIN e.r => e.r.io # "Interrupted"),
+             "stream", [res |-> x.r, mem |-> MemOf(x.st.regs)])
     /\ Judge(("dirty_sound" \in Check /\ plain /\ Tracked(st)) =>
                 \A i \in 1 .. Len(lr) :
                    /\ x.st.regs[i].dirty \subseteq lr[i].dirty
